@@ -248,23 +248,55 @@ def rule_cap(rep: Report, rid="C01.cap") -> None:
             return fn.cls.find_method(call.func.attr)
         return None
 
+    ctx_cls = f.cls("gherkin.parser.ParserContext") if f.has_class("gherkin.parser.ParserContext") else None
+
+    def on_context(fn, v):
+        """v is ``<context>.<errors>`` (not the ``errors`` attribute of an exception object)"""
+        if not (isinstance(v, ast.Attribute) and v.attr == N.CTX_ERRORS):
+            return False
+        if isinstance(v.value, ast.Name) and v.value.id == "self":
+            return fn.cls is not None and ctx_cls is not None and ctx_cls in fn.cls.mro()
+        return True
+
+    # who may write: add_error, and helpers that nothing but add_error (or such a helper) calls
+    def callers_of(target):
+        out = []
+        for g in f.all_functions():
+            if g.module.name == "gherkin.inout":
+                continue
+            for n in ast.walk(g.node):
+                if isinstance(n, ast.Call):
+                    nm = n.func.attr if isinstance(n.func, ast.Attribute) else (n.func.id if isinstance(n.func, ast.Name) else None)
+                    if nm == target.name and g is not target:
+                        out.append(g)
+        return out
+    allowed_writers = {fi.qualname}
+    changed = True
+    while changed:
+        changed = False
+        for g in f.all_functions():
+            if g.qualname in allowed_writers or g.module.name == "gherkin.inout" or g.name.startswith("__"):
+                continue
+            cs = callers_of(g)
+            if cs and all(c.qualname in allowed_writers for c in cs):
+                allowed_writers.add(g.qualname)
+                changed = True
+
     for fn in f.all_functions():
         if fn.module.name == "gherkin.inout":
             continue
         aliases = set()
         for n in ast.walk(fn.node):
-            if isinstance(n, ast.Assign) and len(n.targets) == 1 and isinstance(n.targets[0], ast.Name) and isinstance(n.value, ast.Attribute) and n.value.attr == N.CTX_ERRORS \
-                    and not (isinstance(n.value.value, ast.Name) and n.value.value.id == "self"):
+            if isinstance(n, ast.Assign) and len(n.targets) == 1 and isinstance(n.targets[0], ast.Name) and on_context(fn, n.value):
                 aliases.add(n.targets[0].id)
         for n in ast.walk(fn.node):
             if isinstance(n, ast.Call) and isinstance(n.func, ast.Attribute) and n.func.attr in Interp.MUTATORS:
                 v = n.func.value
-                hit = (isinstance(v, ast.Attribute) and v.attr == N.CTX_ERRORS and not (isinstance(v.value, ast.Name) and v.value.id == "self")) or \
-                    (isinstance(v, ast.Name) and v.id in aliases)
+                hit = on_context(fn, v) or (isinstance(v, ast.Name) and v.id in aliases)
                 if hit:
                     sites += 1
-                    rep.ob(rid, "the collected-error list is only changed by add_error", fn.qualname == fi.qualname, file=fn.file, line=n.lineno, function=fn.qualname,
-                           expected=fi.qualname, found=fn.qualname)
+                    rep.ob(rid, "the collected-error list is only changed by add_error", fn.qualname in allowed_writers, file=fn.file, line=n.lineno, function=fn.qualname,
+                           expected=sorted(allowed_writers), found=fn.qualname)
             if isinstance(n, ast.Call):
                 callee = resolve_callee(fn, n)
                 if callee is None:
@@ -272,13 +304,12 @@ def rule_cap(rep: Report, rid="C01.cap") -> None:
                 off = 1 if (callee.cls is not None and not callee.is_static and isinstance(n.func, ast.Attribute)) else 0
                 mp = None
                 for i, v in enumerate(n.args):
-                    if (isinstance(v, ast.Attribute) and v.attr == N.CTX_ERRORS and not (isinstance(v.value, ast.Name) and v.value.id == "self")) or \
-                            (isinstance(v, ast.Name) and v.id in aliases):
+                    if on_context(fn, v) or (isinstance(v, ast.Name) and v.id in aliases):
                         mp = mutated_params(callee) if mp is None else mp
                         if (i + off) in mp:
                             sites += 1
-                            rep.ob(rid, "the collected-error list is only changed by add_error", fn.qualname == fi.qualname, file=fn.file, line=n.lineno,
-                                   function=fn.qualname, expected=fi.qualname, found=f"{fn.qualname} (through {callee.qualname})")
+                            rep.ob(rid, "the collected-error list is only changed by add_error", fn.qualname in allowed_writers, file=fn.file, line=n.lineno,
+                                   function=fn.qualname, expected=sorted(allowed_writers), found=f"{fn.qualname} (through {callee.qualname})")
     rep.floor("error list mutation sites", sites, 1)
 
 
